@@ -1,6 +1,6 @@
 (* C12 - ocean floor extraction returns the deepest valid value of every water column. *)
 From Coq Require Import ZArith List Bool.
-From EV Require Import Model.Depth Model.FloorPlan Proofs.DepthP Proofs.FloorPlanP.
+From EV Require Import Model.Depth Model.FloorPlan Model.DepthCoord Proofs.DepthP Proofs.FloorPlanP Proofs.DepthCoordP.
 Import ListNotations.
 Open Scope Z_scope.
 
@@ -88,3 +88,84 @@ Theorem C12_depth_dimension_order_irrelevant : forall dds dds' ns skip vs v,
   action_of dds ns skip vs v = action_of dds' ns skip vs v.
 Proof. exact action_order_independent. Qed.
 Print Assumptions C12_depth_dimension_order_irrelevant.
+
+(* ---- which variables are the depth coordinates that ocean_floor (and normalize_depth_variables) are handed ---- *)
+
+(* a variable is a depth coordinate exactly when it carries one of the five markers and lies on no grid; dataset order *)
+Theorem C12_depth_coordinates_spec : forall grids vs c,
+  (In c (depth_coordinates grids vs) <-> In c vs /\ marked c = true /\ grid_kind grids (dv_dims c) = None) /\
+  (forall a b, depth_coordinates grids (a ++ b) = depth_coordinates grids a ++ depth_coordinates grids b).
+Proof. intros grids vs c. split; [apply dc_spec|intros a b; apply dc_app]. Qed.
+Print Assumptions C12_depth_coordinates_spec.
+
+(* a bathymetry (a variable on a grid, whatever its attributes) and a variable without markers never change the answer *)
+Theorem C12_bathymetry_is_not_a_depth_coordinate : forall grids pre v post,
+  ((exists k, grid_kind grids (dv_dims v) = Some k) \/ marked v = false) ->
+  depth_coordinates grids (pre ++ v :: post) = depth_coordinates grids (pre ++ post).
+Proof.
+  intros grids pre v post [[k H]|H]; apply dc_ignores; [now apply bathymetry_not_depth with k|].
+  unfold is_depth. now rewrite H.
+Qed.
+Print Assumptions C12_bathymetry_is_not_a_depth_coordinate.
+
+(* each marker alone is enough, and `positive` is read without regard to case *)
+Theorem C12_depth_markers : forall grids v, grid_kind grids (dv_dims v) = None ->
+  ((a_axis v = Some s_Z \/ a_cartesian_axis v = Some s_Z \/ a_coordinate_type v = Some s_Z \/ a_standard_name v = Some s_depth
+    \/ a_positive v = Some s_up \/ a_positive v = Some s_down) -> is_depth grids v = true) /\
+  (forall p, is_depth grids (with_positive v (Some (upper p))) = is_depth grids (with_positive v (Some p))).
+Proof. intros grids v H. split; [now apply any_marker|intros p; apply positive_any_case]. Qed.
+Print Assumptions C12_depth_markers.
+
+(* the grid kind of a variable: first kind (convention order) whose dimensions it has; refused iff none; the order of the
+   variable's own dimensions plays no part *)
+Theorem C12_grid_kind : forall grids dims,
+  (forall k, grid_kind grids dims = Some k ->
+     exists pre ds post, grids = pre ++ (k, ds) :: post /\ (forall x, In x ds -> In x dims)
+                         /\ forall u, In u pre -> subset (snd u) dims = false) /\
+  (grid_kind grids dims = None <-> forall g, In g grids -> exists x, In x (snd g) /\ ~ In x dims) /\
+  (forall dims', (forall x, In x dims <-> In x dims') -> grid_kind grids dims = grid_kind grids dims').
+Proof.
+  intros grids dims. split; [intros k; apply grid_kind_first|split; [apply grid_kind_none|intros d'; apply grid_kind_dims_order]].
+Qed.
+Print Assumptions C12_grid_kind.
+
+(* the default depth coordinate: a depth coordinate of least size, the first such in dataset order; none iff there is none *)
+Theorem C12_default_depth_coordinate : forall grids vs,
+  (forall c, depth_coordinate grids vs = Some c ->
+     In c (depth_coordinates grids vs) /\ (forall c', In c' (depth_coordinates grids vs) -> size c <= size c')
+     /\ exists pre post, depth_coordinates grids vs = pre ++ c :: post /\ forall u, In u pre -> size c < size u) /\
+  (depth_coordinate grids vs = None <-> forall v, In v vs -> is_depth grids v = false).
+Proof. intros grids vs. split; [intros c; apply depth_coordinate_spec|apply depth_coordinate_none]. Qed.
+Print Assumptions C12_default_depth_coordinate.
+
+(* the depth coordinate of one variable: the only depth coordinate whose dimensions the variable has; two that fit are
+   refused, never resolved silently; none that fits is refused *)
+Theorem C12_depth_coordinate_for_array : forall grids vs dims,
+  (forall c, for_array grids vs dims = Found c ->
+     In c (depth_coordinates grids vs) /\ (forall x, In x (dv_dims c) -> In x dims)
+     /\ forall c', In c' (depth_coordinates grids vs) -> (forall x, In x (dv_dims c') -> In x dims) -> c' = c) /\
+  (for_array grids vs dims = NoCoordinate <->
+     forall c, In c (depth_coordinates grids vs) -> exists x, In x (dv_dims c) /\ ~ In x dims) /\
+  (forall c1 c2 pre mid post, depth_coordinates grids vs = pre ++ c1 :: mid ++ c2 :: post ->
+     (forall x, In x (dv_dims c1) -> In x dims) -> (forall x, In x (dv_dims c2) -> In x dims) ->
+     for_array grids vs dims = Ambiguous).
+Proof.
+  intros grids vs dims. split; [intros c; apply for_array_found|split; [apply for_array_none|]].
+  intros c1 c2 pre mid post. apply for_array_two_refused.
+Qed.
+Print Assumptions C12_depth_coordinate_for_array.
+
+(* SHOC: the fixed names that are present, in the fixed order, whatever the order of the variables in the file *)
+Theorem C12_shoc_depth_coordinates : forall fixed vs,
+  (forall n, In n (shoc_depth_coordinates fixed vs) <-> In n fixed /\ exists v, In v vs /\ dv_name v = n) /\
+  (forall vs', Permutation.Permutation vs vs' ->
+     shoc_depth_coordinates fixed vs = shoc_depth_coordinates fixed vs' /\
+     shoc_depth_coordinate fixed vs = shoc_depth_coordinate fixed vs').
+Proof. intros fixed vs. split; [intros n; apply shoc_spec|intros vs'; apply shoc_order_free]. Qed.
+Print Assumptions C12_shoc_depth_coordinates.
+
+(* non-vacuity: a layer coordinate, an interface coordinate, a sediment coordinate and a bathymetry labelled positive: down *)
+Theorem C12_depth_coordinates_example : observe ex_grids ex_vs [[30; 20; 10; 11]; [10; 11]; [20; 21]] =
+  ([2; 3; 4], Some 3, [(0, 2); (1, -1); (2, -1)], [Some 0; None; None; None]).
+Proof. exact ex_observe. Qed.
+Print Assumptions C12_depth_coordinates_example.
